@@ -20,7 +20,7 @@ BUILTIN = {
     'std::uint8_t': 'unsigned char', 'uint8_t': 'unsigned char',
 }
 
-SCALAR_C = set(BUILTIN.values()) | {'c_enum', 'c_tabid', 'c_opaque', 'c_strid'}
+SCALAR_C = set(BUILTIN.values()) | {'c_enum', 'c_tabid', 'c_opaque', 'c_strid', 'c_textptr'}
 
 
 def strip_cv(s):
